@@ -111,9 +111,11 @@ def nores(keys):
     return {"val": 0, "key": "", "err": False, "m": {k: 0 for k in keys}}
 
 
-def execute(ops, fam, workdir, keys, adaptive=False):
+def execute(ops, fam, workdir, keys, adaptive=False, popitem_keys=None):
     """ops: list of {op,k,v,m}.  Returns the observed trace (same events with observed res).
-    adaptive: a mutate aimed at a key that is not there becomes a read (input selection only)."""
+    adaptive: a mutate aimed at a key that is not there becomes a read (input selection only).
+    popitem_keys: per operation, the key the generated history assumed popitem() removes; when the real dict removes
+    another item the rest of that history does not apply (it is a different enumerated history) and execution stops."""
     from bluesky.utils import PersistentDict
     tk = tokens_for(fam)
     directory = tempfile.mkdtemp(dir=workdir)
@@ -168,8 +170,9 @@ def execute(ops, fam, workdir, keys, adaptive=False):
             if op == "crash":
                 fin.detach()            # the process dies: the finalizer never runs
             del d
-            box.clear()
-            gc.collect()
+            box.clear()             # last reference: the instance is deallocated and (reopen) its finalizer runs
+            if op == "reopen" and fin.alive:
+                gc.collect()        # only if the class ever ends up in a reference cycle (a full collection is slow)
             if op == "reopen" and fin.alive:
                 raise RuntimeError("harness: the PersistentDict instance was not collected")
             box.append(PersistentDict(directory))
@@ -178,6 +181,8 @@ def execute(ops, fam, workdir, keys, adaptive=False):
             raise ValueError(op)
         d = None
         trace.append({"op": op, "k": k, "v": v, "m": e["m"], "res": res})
+        if popitem_keys and op == "popitem" and not res["err"] and res["key"] != popitem_keys[n]:
+            break
     box[0]._finalizer.detach()
     box.clear()
     shutil.rmtree(directory, ignore_errors=True)
@@ -393,7 +398,7 @@ def run(ctx):
                     "m": {k: e["res"]["m"].get(k, 0) for k in TKEYS}} for e in h]
             # popitem carries its result in hist; the op itself has no argument
             try:
-                tr = execute(ops, fam, work, TKEYS)
+                tr = execute(ops, fam, work, TKEYS, popitem_keys=[x["key"] for x in exp])
             except Exception as ex:  # noqa: BLE001 -- a legal history must not raise
                 ctx.violation(f"replay-exc:{type(ex).__name__}:{compact(ops)}", f"history {compact(ops)} raised {ex!r} on the real PersistentDict",
                               {"hist": ops, "family": fam})
